@@ -1476,6 +1476,44 @@ func ruleR02_6(p *Program, r *Report) {
 			}
 		}
 	}
+	// field-wise installation: every array of the table is copied from the same field of the precomputed table
+	for sel, g := range want {
+		if got[sel] == g {
+			continue
+		}
+		tn := map[string]string{".litLenTable": "largeHuffCodeTable", ".distTable": "smallHuffCodeTable"}[sel]
+		n := p.Named(flateRel, tn)
+		if n == nil {
+			continue
+		}
+		st := n.Underlying().(*types.Struct)
+		all := true
+		for i := 0; i < st.NumFields(); i++ {
+			fname := st.Field(i).Name()
+			okF := false
+			for _, b := range fn.Blocks {
+				for _, in := range b.Instrs {
+					if s2, ok := in.(*ssa.Store); ok {
+						if root, s3 := accessPath(s2.Addr); root == ssa.Value(fn.Params[0]) && s3 == sel+"."+fname {
+							if ld, ok := s2.Val.(*ssa.UnOp); ok {
+								if gr, gs := accessPath(ld.X); gs == "."+fname {
+									if gg, ok := gr.(*ssa.Global); ok && gg.Name() == g {
+										okF = true
+									}
+								}
+							}
+						}
+					}
+				}
+			}
+			if !okF {
+				all = false
+			}
+		}
+		if all {
+			got[sel] = g
+		}
+	}
 	for sel, g := range want {
 		r.Check(got[sel] == g, "R02.6", "setupStaticHeader|"+sel, p.Pos(fn.Pos()), "a fixed block installs the whole precomputed table "+g+" (short and long parts) in "+sel, "no whole-table store of "+g+" into "+sel+": entries that resolve through the long part would come from zeros or from the previous dynamic block")
 	}
